@@ -4,6 +4,7 @@ import (
 	"go/token"
 	"go/types"
 	"sort"
+	"strings"
 
 	"golang.org/x/tools/go/ssa"
 
@@ -103,6 +104,19 @@ func runOpReadonly(p *core.Program, r *core.Report, rule string) {
 				case *ssa.MapUpdate:
 					if rooted(x.Map, f, bind, 0) {
 						bad, what = ins, "updates the map "+addrDesc(x.Map)
+					}
+				case *ssa.Call:
+					// op.field.Store(v), atomic.StoreInt32(&op.field, v), mutex-free
+					// caches: writes through sync/atomic
+					callee := x.Call.StaticCallee()
+					if callee == nil || core.PkgPathOf(callee) != "sync/atomic" || len(x.Call.Args) == 0 {
+						return
+					}
+					switch n := core.Origin(callee).Name(); {
+					case strings.HasPrefix(n, "Store"), strings.HasPrefix(n, "Swap"), strings.HasPrefix(n, "CompareAndSwap"), strings.HasPrefix(n, "Add"), strings.HasPrefix(n, "Or"), strings.HasPrefix(n, "And"):
+						if rooted(x.Call.Args[0], f, bind, 0) {
+							bad, what = ins, "writes "+addrDesc(x.Call.Args[0])+" through sync/atomic"
+						}
 					}
 				case *ssa.MakeClosure:
 					f2 := x.Fn.(*ssa.Function)
